@@ -336,12 +336,14 @@ func (c *FnCtx) fnMods(fn *ssa.Function, ms *loopModSet, depth int) {
 					}
 				}
 			}
-			if a, ok := in.(*ssa.Alloc); ok {
-				et := a.Type().Underlying().(*types.Pointer).Elem()
-				if structOf(et) == nil {
-					ms.heaps["alloc"] = SInt
-					continue
-				}
+			if _, ok := in.(*ssa.Alloc); ok {
+				// objects allocated by the callee are fresh for the caller: their initialisation
+				// does not modify anything the caller knows about
+				ms.heaps["alloc"] = SInt
+				continue
+			}
+			if s, ok := in.(*ssa.Store); ok && rootedAtLocalAlloc(s.Addr) {
+				continue
 			}
 			c.instrMods(fr, in, ms, depth)
 		}
@@ -406,4 +408,21 @@ func (c *FnCtx) havoc(st *State, fr *Frame, ms *loopModSet, why string) {
 		c.assumeAllocatedSV(st, v, et)
 		st.cells[k] = v
 	}
+}
+
+// rootedAtLocalAlloc: the address is a field/element of an object allocated in this function.
+func rootedAtLocalAlloc(a ssa.Value) bool {
+	for i := 0; i < 8; i++ {
+		switch x := a.(type) {
+		case *ssa.Alloc:
+			return true
+		case *ssa.FieldAddr:
+			a = x.X
+		case *ssa.IndexAddr:
+			a = x.X
+		default:
+			return false
+		}
+	}
+	return false
 }
